@@ -5,6 +5,7 @@ CONSTANTS OFFBYONE = FALSE
   KEYGEN0 = FALSE
   DECRYPTMEMBERS = FALSE
   TRAILERMERGE = FALSE
+  ZEROLENUNKNOWN = FALSE
   Objs = {1, 2, 3}
   MaxRevs = 2
   MaxPieces = 3
